@@ -11,14 +11,19 @@
     - [op_wf]: what ComputedData provides (distinct row ids, positive lot amounts, non-negative costs, lots inside the date
       window, every fraction's lot among the in-transactions, no lot overspent (C02), the sold-% table = the fold over the
       fractions).  [compute_parts] proves the structural ones for every output of [compute]; "not overspent" is C02's theorem.
-    - C07's reconciliation (sum of final balances = amount left in the lots) where a positive balance is needed: it fails
-      with a dust transfer fee (finding F8) and then the report dies with KeyError ([C15_keyerror], witness in
-      Proofs/OpenPosExamples.v).
+    - C07's reconciliation (sum of final balances = amount left in the lots) where a positive balance is needed: a hypothesis of
+      [C15_listed_has_balance]; discharged end to end, from the raw rows, by [C15_listed_has_balance_from_rows] for runs whose
+      window hides nothing (C07_reconciliation_from_rows + [C15_remaining_is_unsold]).  Since the repair of finding F8 it
+      carries no caveat about small transfer fees.  With a to-date cut the reconciliation of the cut history is not proved
+      (C07's theorem is for the whole history); the check judges those runs with the oracle.
+      The KeyError of [C15_keyerror] needs an asset whose lots keep an amount that no account holds; a dust transfer fee
+      can no longer produce that situation (the witness of Proofs/OpenPosExamples.v is kept, on explicitly given fractions).
     - sizes: lot cost x accumulated rounding below 4.9e-14, per-unit cost below 1e18 (RP2Decimal comparisons defined). *)
 From Coq Require Import QArith Qabs Permutation.
-From RP2V Require Import Base.Prelude Base.Time Base.Dec Base.Assoc Model.Types Model.Generated Model.Txn Model.Pipeline
+From RP2V Require Import Base.Prelude Base.Time Base.Dec Base.Assoc Model.Types Model.Generated Model.Txn Model.Matcher
+  Model.MatchSpec Model.MatchWf Model.Pipeline Model.ComputedSpec Proofs.PipelineWf
   Model.Computed Model.Grid Model.ReportInput Model.OpenPos Proofs.DecProofs Proofs.C04Proofs Proofs.OpenPosProofs
-  Proofs.OpenPosArith Proofs.OpenPosExamples.
+  Proofs.OpenPosArith Proofs.OpenPosExamples Proofs.OpenPosReconcile.
 Open Scope Z_scope.
 
 (** ---- the code's expressions and columns (break when the source changes them) *)
@@ -176,6 +181,45 @@ Theorem C15_listed_has_balance : forall from_ to_ c, op_wf from_ to_ c ->
   asset_listed c = true -> pos_balances c <> [].
 Proof. exact listed_has_balance. Qed.
 
+(** the reconciliation premise is C07's theorem.  The report reads the amount left in a lot off the gain/loss rows of ComputedData;
+    for a run whose window hides nothing ([shows_all]: no from-date, no to-date cut) that is what the matcher's fractions leave *)
+Theorem C15_remaining_is_unsold : forall period from_ to_ allow exs hos t fs c,
+  compute period from_ to_ allow exs hos t fs = Ok c -> shows_all from_ to_ t ->
+  sumZ (map (remaining (cd_gls c)) (cd_ins c)) = unsold (t_ins t) fs.
+Proof. exact remaining_is_unsold. Qed.
+
+(** ... so, end to end from the raw rows (constructors, taxable events, matcher, ComputedData) and with no hypothesis about
+    balances or about small transfer fees: a listed asset has an account with a positive balance.  This goes through
+    C07_reconciliation_from_rows and the transfer-fee rule of the source (every transfer with a fee > 0 is taxed: repair of
+    finding F8); on a tree with the old rule it stops compiling.  Non-vacuity: [listed_has_balance_instance]
+    (Proofs/OpenPosReconcile.v), the dust-fee history of finding F8 itself *)
+Theorem C15_listed_has_balance_from_rows : forall period from_ to_ allow exs hos sched h t fs c,
+  build h = Ok t ->
+  in_rows_increasing h -> amounts_positive h -> NoDup (map fst sched) ->
+  (forall evs, taxable_events t = Ok evs -> hist_same_instant_same_year evs /\ hist_sched_covers sched evs) ->
+  fractions_of gen_always_repush sched t = Ok fs ->
+  outs_consistent t -> shows_all from_ to_ t ->
+  compute period from_ to_ allow exs hos t fs = Ok c ->
+  op_wf from_ to_ c ->
+  (forall l, In l (cd_ins c) -> (qcost l * E (length (cd_gls c) + 3) < 49 # (10 ^ 15))%Q) ->
+  asset_listed c = true -> pos_balances c <> [].
+Proof. exact listed_has_balance_from_rows. Qed.
+
+(** the same for any window without a to-date cut of the balances ([no_cut]), the identification of the gain/loss rows with the
+    fractions being carried as a hypothesis (under a from-date the report's rows are a subset: outside the property's quantifier) *)
+Theorem C15_listed_has_balance_reconciled : forall period from_ to_ allow exs hos sched h t fs c,
+  build h = Ok t ->
+  in_rows_increasing h -> amounts_positive h -> NoDup (map fst sched) ->
+  (forall evs, taxable_events t = Ok evs -> hist_same_instant_same_year evs /\ hist_sched_covers sched evs) ->
+  fractions_of gen_always_repush sched t = Ok fs ->
+  outs_consistent t -> no_cut to_ t ->
+  compute period from_ to_ allow exs hos t fs = Ok c ->
+  op_wf from_ to_ c ->
+  (forall l, In l (cd_ins c) -> (qcost l * E (length (cd_gls c) + 3) < 49 # (10 ^ 15))%Q) ->
+  sumZ (map (remaining (cd_gls c)) (cd_ins c)) = unsold (t_ins t) fs ->
+  asset_listed c = true -> pos_balances c <> [].
+Proof. exact listed_has_balance_reconciled. Qed.
+
 (** no lookup fails, no division by zero: the report is produced *)
 Theorem C15_no_lookup_fails : forall lang i cs s,
   gen_op_names lang <> None -> gen_op_template (country_code (rp_country i)) lang <> None ->
@@ -211,8 +255,14 @@ Theorem C15_repair_lookups : forall cs s, first_pass cs = Ok s -> forall ac, In 
   0 < total_balance (hb_of (drop_orphans s) (fst ac)).
 Proof. exact drop_orphans_lookups. Qed.
 
-(** the full statement "every valid input without overdraft yields the report" is refuted for the unrepaired shape by the
-    dust-fee witness; the repaired shape produces the report on the same input *)
+(** the KeyError on a concrete state.  The witness gives the transactions AND the gain/loss fractions explicitly (the report
+    model reads both from its input: [computed_all] does not run the matcher): BUY 1 (H0); MOVE 1 -> 0.99999999999 to H1 at price
+    1e-8; SELL 0.99999999999 (H1); fractions = the sale only, i.e. the transfer fee of 1e-11 was not taken from the lot.  That is
+    what the matcher produced under the transfer-fee rule before the repair of finding F8 (a fee worth < 5e-14 was not a taxable
+    event); under the rule of the source as it is now the fee is taxed, the lot is exhausted and this state is not reachable
+    from these rows (C07_reconciliation_from_rows).  The statement itself does not depend on the rule and compiles on every
+    tree: the lot keeps 1e-11 (cost 1e-9 > 0), every balance is 0, the unrepaired shape of the generator dies with KeyError;
+    with the repair between the passes (F8-openpos) the same state yields the report *)
 Theorem C15_refuted_dust_fee : exists c rest,
   rd_rinput keyerror_args = Some (Ok key_i, []) /\ computed_all key_i (rp_assets key_i) = Ok key_acs /\ map snd key_acs = c :: rest /\
   asset_listed c = true /\ pos_balances c = [] /\
@@ -255,6 +305,9 @@ Print Assumptions C15_asset_cost_accuracy.
 Print Assumptions C15_row_figures_accuracy.
 Print Assumptions C15_total_positive.
 Print Assumptions C15_listed_has_balance.
+Print Assumptions C15_remaining_is_unsold.
+Print Assumptions C15_listed_has_balance_from_rows.
+Print Assumptions C15_listed_has_balance_reconciled.
 Print Assumptions C15_no_lookup_fails.
 Print Assumptions C15_keyerror.
 Print Assumptions C15_refuted_dust_fee.
